@@ -6,7 +6,7 @@ usage: seed_eval.py <PID> <outdir> <k> [extra props...]
  - the baseline suite must still pass on the changed copy
  - run ./check <PID> (and extra props) with QV_REPO=<changed copy>; record what was reported
  - store under /verif/seeded/<PID>-<k>/"""
-import json, os, shutil, subprocess, sys, time
+import json, os, re, shutil, subprocess, sys, time
 
 pid, outdir, k = sys.argv[1], sys.argv[2], sys.argv[3]
 props = [pid] + sys.argv[4:]
@@ -56,6 +56,9 @@ dst = f"/verif/seeded/{pid}-{tag}{k}"
 os.makedirs(dst, exist_ok=True)
 shutil.copy(diff, dst + "/patch.diff")
 shutil.copy(f"{outdir}/demo{k}.py", dst + "/demo.py")
+for extra in os.listdir(outdir):  # helper modules the demo imports from its own directory
+    if extra.endswith(".py") and not re.fullmatch(r"demo\d+\.py", extra):
+        shutil.copy(f"{outdir}/{extra}", dst + "/" + extra)
 meta = dict(property=pid, what=ch.get("what"), needs_to_manifest=ch.get("needs_to_manifest"),
             confirmed=dict(demo_exit_clean=c_rc, demo_exit_changed=m_rc, demo_output_changed=m_out[-300:],
                            baseline_passes_with_change=(b.returncode == 0), baseline_line=b.stdout.strip().split("\n")[0]),
